@@ -927,6 +927,11 @@ impl ProgGen {
                     format!("#define VEC{}(k) float ## k", n),
                     format!("static const int {}(gc, {}) = {};", cat, n, 1 + rng.below(9)),
                     format!("VEC{}(3) fv{}(float a) {{ return {}(flo, at3)(a, a, a); }}", n, n, cat),
+                    // pasting with an argument that is left empty (a placemarker, whatever white space the argument holds)
+                    format!("#define SUFFIXED{}(t, name, suffix) static const t name ## suffix = 2", n),
+                    format!("SUFFIXED{}(int, gd{}, );", n, n),
+                    format!("SUFFIXED{}(int, ge{}, _x);", n, n),
+                    format!("static const int gf{} = {}(, 7) + gd{};", n, cat, n),
                 ])
             }
             11 => {
